@@ -19,4 +19,4 @@ def run(ctx):
     n = 0
     for v in (2, 3):
         n += RO.check_subvectors(ctx, led, v)
-    led.require_min("C15.emit", n, 8 + 14, "sub-vector fields analysed")
+    led.require_min("C15.emit", n, 16, "sub-vector fields analysed")
